@@ -104,28 +104,38 @@ let handle fields impl : string option * string list =
     (Some m, mons)
   | ["hist"; own; steps] ->
     let parse part = match String.split_on_char ':' part with
-      | [i; kind; pv] -> (int_of_string i, kind, pv)
+      | [i; kind; pv] ->
+        let (id, seq) = (match String.split_on_char '.' i with
+            | [a; s] -> (int_of_string a, int_of_string s) | _ -> (int_of_string i, 0)) in
+        (id, seq, kind, pv)
       | _ -> failwith "hist step" in
     let st = List.map parse (String.split_on_char ';' steps) in
-    let (rs, _) = gos_history (vl own) empty_cache (List.map (fun (i, kind, pv) -> (n_ i, entry kind pv)) st) in
+    (* cache key = the record object: rec_key (node id) (sequence number) *)
+    let (rs, _) = gos_history (vl own) empty_cache (List.map (fun (id, seq, kind, pv) -> (rec_key (n_ id) (n_ seq), entry kind pv)) st) in
     let m = Printf.sprintf "ok r=%s own=%s" (String.concat "," (List.map show_r rs)) (String.concat "," (List.map (fun _ -> own) st)) in
     let irs = String.split_on_char ',' (field impl "r") and iowns = String.split_on_char ',' (field impl "own") in
-    (* specification, independent of the model: own list untouched after every call; a peer without entry that is asked
-       about for the first time gets own's first-listed version; a pv peer asked about for the first time gets the max *)
-    let seen = Hashtbl.create 8 in
-    let mons = List.concat (List.mapi (fun k (i, kind, pv) ->
+    (* specification, independent of the model: own list untouched after every call; the FIRST call with a record is
+       answered from that record alone (no pv: own's first-listed version; pv: the max common one), whatever was negotiated
+       with other records - other records of the same node included *)
+    let seen = Hashtbl.create 8 and by_ident = Hashtbl.create 8 in
+    let mons = List.concat (List.mapi (fun k (id, seq, kind, pv) ->
         let r = (try List.nth irs k with _ -> "?") and o = (try List.nth iowns k with _ -> "?") in
-        let fresh = not (Hashtbl.mem seen i) in
-        Hashtbl.replace seen i ();
+        let fresh = not (Hashtbl.mem seen (id, seq)) in
+        Hashtbl.replace seen (id, seq) ();
+        let earlier = Hashtbl.find_all by_ident id in
+        Hashtbl.add by_ident id r;
+        let wrong what = if earlier <> [] && List.mem r earlier
+          then [Printf.sprintf "version-taken-from-another-record call %d with record %d.%d answered %s (an earlier record of that node got it), %s" k id seq r what]
+          else [Printf.sprintf "%s history call %d impl=%s" what k r] in
         (if o <> own then [Printf.sprintf "own-version-list-mutated after call %d the instance lists %s instead of %s" k o own] else []) @
         (if fresh && kind = "missing" then
            (match ivl own with
-            | v0 :: _ when r <> string_of_int v0 -> [Printf.sprintf "version-missing-entry-not-base call %d answered %s, base is %d" k r v0]
+            | v0 :: _ when r <> string_of_int v0 -> wrong (Printf.sprintf "version-missing-entry-not-base base=%d" v0)
             | _ -> [])
          else if fresh && kind = "list" then
            (match spec_max (ivl own) (ivl pv) with
-            | Some mx when r <> string_of_int mx -> [Printf.sprintf "version-not-max-common history call %d spec=%d impl=%s" k mx r]
-            | None when r <> "e" -> [Printf.sprintf "version-ok-without-common-version history call %d impl=%s" k r]
+            | Some mx when r <> string_of_int mx -> wrong (Printf.sprintf "version-not-max-common spec=%d" mx)
+            | None when r <> "e" -> wrong "version-ok-without-common-version"
             | _ -> [])
          else [])) st) in
     (Some m, mons)
